@@ -350,8 +350,10 @@ def has_decls(sheet):
 # ------------------------------------------------------------------------------------------------------
 # stylesheet text
 
-HEAD = ('<xsl:stylesheet version="1.0" xmlns:xsl="%s" xmlns:x1="%s" xmlns:x2="%s" xmlns:p="%s" xmlns:r="%s"'
-        ' exclude-result-prefixes="x1 x2 p r">\n' % (XSLNS, U1, U2, U1, U2))
+EXT_NS = ('xmlns:xalan="http://xml.apache.org/xalan" xmlns:set="http://exslt.org/sets" xmlns:str="http://exslt.org/strings" '
+          'xmlns:math="http://exslt.org/math" xmlns:dyn="http://exslt.org/dynamic" xmlns:exsl="http://exslt.org/common"')
+HEAD = ('<xsl:stylesheet version="1.0" xmlns:xsl="%s" xmlns:x1="%s" xmlns:x2="%s" xmlns:p="%s" xmlns:r="%s" %s'
+        ' exclude-result-prefixes="x1 x2 p r xalan set str math dyn exsl">\n' % (XSLNS, U1, U2, U1, U2, EXT_NS))
 
 
 def render_items(items, files, base, with_decls, counter):
@@ -569,11 +571,43 @@ BODIES = [
      '<xsl:template match="/"><o><xsl:for-each select="//*"><e n="{@n}" i="{count(id(.))}" j="{count(id(*))}" '
      'k="{count(id(node()))}" t="{count(id(text()))}" f="{id(.)[1]/@n}" s="{count(id(string(.)))}" '
      'u="{count(id(. | following-sibling::*))}"/></xsl:for-each></o></xsl:template>\n'),
+    # extension functions run with the execution context the stylesheet context hands them (extFunction(*this, …)): what
+    # they observe — nodes, string values, dynamically evaluated paths — must be the stripped view as well
+    ("ext-sets", OUT_XML +
+     '<xsl:template match="/"><o><xsl:for-each select="//*"><e n="{@n}" xd="{count(xalan:distinct(*))}" '
+     'xdn="{count(xalan:distinct(node()))}" sd="{count(set:distinct(*))}" sdn="{count(set:distinct(node()))}" '
+     'sdf="{count(set:difference(node(), *))}" si="{count(set:intersection(node(), text()))}" '
+     'hs="{set:has-same-node(node(), text())}" sl="{count(set:leading(node(), *[1]))}" st="{count(set:trailing(node(), *[1]))}" '
+     'sc="{string-length(str:concat(*))}" scn="{string-length(str:concat(node()))}" scv="{str:concat(*)}" '
+     'mn="{math:min(*)}" mx="{count(math:highest(*))}" ml="{count(math:lowest(node()))}" xdv="{xalan:distinct(*)[last()]/@n}"/>'
+     '</xsl:for-each></o></xsl:template>\n'),
+    ("ext-evaluate", OUT_XML +
+     '<xsl:template match="/"><o><xsl:for-each select="//*"><e n="{@n}" ev="{count(xalan:evaluate(\'node()\'))}" '
+     'evt="{count(xalan:evaluate(\'text()\'))}" evs="{string-length(xalan:evaluate(\'string(.)\'))}" '
+     'evd="{xalan:evaluate(\'count(descendant::node())\')}" evf="{count(xalan:evaluate(\'following-sibling::node()\'))}" '
+     'evp="{xalan:evaluate(\'count(node()[1][self::text()])\')}" dv="{count(dyn:evaluate(\'child::node()\'))}" '
+     'dvt="{dyn:evaluate(\'count(descendant::text())\')}" dvs="{dyn:evaluate(\'string-length(.)\')}" '
+     'dvl="{dyn:evaluate(\'count(node()[last()][self::text()])\')}"/></xsl:for-each></o></xsl:template>\n'),
+    ("ext-nodeset", OUT_XML +
+     '<xsl:variable name="rtf"><xsl:copy-of select="/*"/></xsl:variable>\n'
+     '<xsl:template match="/"><o a="{count(xalan:nodeset($rtf)/*/node())}" b="{count(exsl:node-set($rtf)//text())}" '
+     'c="{string-length(xalan:nodeset($rtf))}" d="{count(xalan:nodeset($rtf)//node())}"><xsl:for-each select="//*">'
+     '<xsl:variable name="f"><xsl:copy-of select="."/></xsl:variable><e n="{@n}" k="{count(exsl:node-set($f)/*/node())}" '
+     't="{count(xalan:nodeset($f)/*/text())}" s="{string-length(exsl:node-set($f)/*)}" '
+     'x="{count(xalan:distinct(exsl:node-set($f)/*/node()))}"/></xsl:for-each></o></xsl:template>\n'),
     ("copy-shallow", OUT_XML +
      '<xsl:template match="/"><o><xsl:for-each select="//node()"><xsl:copy/>|</xsl:for-each></o></xsl:template>\n'),
 ]
 
-BODY_BY_NAME = dict(BODIES)
+# not in the rotation: the witness of known finding C13-rtf-nodeset-stripped (corpus only)
+EXTRA_BODIES = [
+    ("rtf-literal-ws", OUT_XML +
+     '<xsl:variable name="f"><a><xsl:text> </xsl:text><b/></a></xsl:variable>\n'
+     '<xsl:template match="/"><o k="{count(exsl:node-set($f)/a/node())}" s="{string-length(exsl:node-set($f)/a)}" '
+     'r="{string-length($f)}"/></xsl:template>\n'),
+]
+
+BODY_BY_NAME = dict(BODIES + EXTRA_BODIES)
 
 
 # ------------------------------------------------------------------------------------------------------
